@@ -7,5 +7,21 @@ RULE = ("seeded histories of sorted-set commands with scores drawn to collide (g
         "end; cell = (command, pre-state type, reply class)")
 
 
+def inprocess(tier, seed):
+    """Monitor C: operation sequences directly on SkipList<Vec<u8>, f64> against a model with the structural
+    walker after every operation (rs/src/bin/skiplist.rs); thorough adds Miri runs and the ASan server."""
+    from .. import rsbin, util
+    rsbin.build()
+    n = 4 if tier == "quick" else 16
+    budget = 8 if tier == "quick" else 60
+    res = util.run_workers(rsbin.worker, [(seed * 1000 + i, budget, tier) for i in range(n)],
+                           dict(name="skiplist", extra_args=[], timeout=budget * 6 + 120, prefix="inproc/"), nproc=n)
+    if tier == "thorough":
+        res.merge(util.run_workers(rsbin.miri_worker, [seed * 100 + i for i in range(16)], dict(name="skiplist"), nproc=16))
+    return res
+
+
 def run(tier):
-    return modeldiff.run("C04", tier, "gen:gen_zset_cmd", RULE, check_every=8, hist_len=(20, 150))
+    return modeldiff.run("C04", tier, "gen:gen_zset_cmd", RULE + "; plus in-process histories on the skip list itself "
+                         "(model comparison of items/ranks/ranges, walker after every operation; Miri in thorough)",
+                         check_every=8, hist_len=(20, 150), extra_fn=inprocess)
